@@ -9,7 +9,12 @@ TRUSTED = [
     "curve constants (p, a, d, G, r, h) are read from the running library (context line ed_param); the driver evaluates generator on curve, "
     "r*G = O, G != O, h = 8 and the orders of the 2-, 4- and 8-torsion points it computes itself; primality of p and r is NOT established "
     "here (ed25519: well-known; not in the C18 tables, which cover the prime-curve parameter files)",
-    "class C (compared with the specification on the presented lines only): ed_mul_fix_combd, ed_mul_sim_lot, ed_blind, ed_on_curve, "
+    "class A since the C17 extension: ed_mul_pre_combd + ed_mul_fix_combd (model mulFixCombd: the table and loop models tabCombd / mulCombd "
+    "shared with ep_mul_*_combd, constants dd = ceil(bits(r)/RLC_DEPTH), e = ceil(dd/2), scalar reduced modulo r; theorem mul_fix_combd: total, "
+    "k*P for every integer k and depth >= 1) and ed_mul_sim_lot (model simLot: binary NAFs of the unreduced scalars at capacity max bits + 1, "
+    "points negated for negative scalars, interleaved loop simLotNaf; theorem mul_sim_lot: total, sum k_i*P_i for every list of pairs); the "
+    "models run over the affine group law of the specification, the C loops over the translated add/dbl formulas (linked by the formula theorems)",
+    "class C (compared with the specification on the presented lines only): ed_blind, ed_on_curve, "
     "ed_size_bin, ed_curve_get_gen, hashing to the curve (ed_map, ed_map_dst: the specification is the plain RFC 9380 construction — "
     "expand_message_xmd, Elligator 2, birational map, cofactor clearing — and the result is also required to satisfy r*P = O; the optimised "
     "straight-line code of ed_map_ell2_5mod8 is not modelled), fp_srt / fp_inv / fp_exp (C02)",
@@ -28,12 +33,14 @@ ASSUMPTIONS = [
 ]
 RULE = ("points O, (0,-1), both points of order 4, all four of order 8, G, -G, small and random multiples of G, sums of torsion and subgroup "
         "points, equal/opposite pairs, each presented affine / projective / extended with z in {1, 2, p-1, random}; scalars 0, +-1, 2, r-1, r, "
-        "r+1, multiples of r, negative, longer than r (254..512 bits), sparse/dense/alternating/long zero runs; every add/sub/dbl/neg/mul/"
+        "r+1, multiples of r, negative, longer than r (254..512 bits), sparse/dense/alternating/long zero runs, comb-structured (single bits "
+        "at row / column / half-table boundaries, one half of the columns empty, full row, full column, all ones); ed_mul_sim_lot with 0, 1, "
+        "2, 3, 5, 8, 12 points, zero / negative / unreduced / unevenly long scalars, neutral and repeated points; every add/sub/dbl/neg/mul/"
         "mul_fix/mul_sim variant by name in the three coordinate-system builds; every alias pattern; encodings valid and malformed; "
         "non-trivial = distinct (configuration, line) whose result is neither an error nor the neutral element")
 
 GENERATED = ["ed"]
-EXTRA_THEOREM_MODULES = ["RelicVerif.Lemmas.EdFormulas", "RelicVerif.Lemmas.EdGroup", "RelicVerif.Lemmas.EdMul", "RelicVerif.Lemmas.EdConv"]
+EXTRA_THEOREM_MODULES = ["RelicVerif.Lemmas.EdFormulas", "RelicVerif.Lemmas.EdGroup", "RelicVerif.Lemmas.EdMul", "RelicVerif.Lemmas.EdLot", "RelicVerif.Lemmas.EdConv"]
 
 CONFIGS = ["p255", "p255-extnd", "p255-basic"]
 SYS = {"p255": "projc", "p255-extnd": "extnd", "p255-basic": "basic", "p255-extnd-san": "extnd"}
@@ -49,6 +56,7 @@ class Ed:
         self.p = int(kv["p"], 16); self.a = int(kv["a"], 16); self.d = int(kv["d"], 16)
         self.g = (int(kv["gx"], 16), int(kv["gy"], 16)); self.r = int(kv["r"], 16); self.h = int(kv["h"], 16)
         self.nb = int(kv["nb"]); self.R = 1 << (64 * int(kv["fpdigs"])); self.fpbits = int(kv["fpbits"])
+        self.depth = int(kv.get("depth", 4))          # RLC_DEPTH of the build (rows of the comb tables)
         self.O = (0, 1)
         self.tors = None
 
@@ -298,9 +306,9 @@ def gen_mul(rng, cv, sysname, count, part=None):
             out.append("eds %s%s %s %x %s %x" % (v, al, ptok(rng, cv, rng.choice(pool), rp), 1 + rng.below(cv.r - 1),
                                                 ptok(rng, cv, rng.choice(pool), rp), 1 + rng.below(cv.r - 1)))
     # comb-structured scalars for the double-table comb (ed_mul_fix_combd; fix_ / gen use it in the p255-basic build) and the single
-    # comb: RLC_DEPTH = 4 rows, dd = ceil(bits(r)/4) columns, e = ceil(dd/2): single bits at the row / column / half boundaries,
+    # comb: RLC_DEPTH rows (as the library reports), dd = ceil(bits(r)/depth) columns, e = ceil(dd/2): single bits at the row / column / half boundaries,
     # full and empty halves (second-table columns only, first-table columns only), one full column, one full row, all ones
-    depth = 4
+    depth = cv.depth
     dd = (cv.r.bit_length() + depth - 1) // depth
     e = (dd + 1) // 2
     bit = lambda i, j: 1 << (i + j * dd)
